@@ -82,15 +82,20 @@ func (b *backendConfigSessionHandler) HandlePacket(pc *proto.PacketContext) {
 	case *plugin.Message:
 		b.handlePluginMessage(pc, p)
 	case *packet.Disconnect:
-		b.serverConn.disconnect()
 		// If the player receives a DisconnectPacket without a connection to a server in progress,
 		// it means that the backend server has kicked the player during reconfiguration
 		if b.serverConn.player.connectionInFlight() != nil {
+			// Hand the kick (and its reason) to the waiting request before the connection
+			// is closed: closing reports "unexpectedly disconnected" to the request, and
+			// once the request has returned this handler would treat the kick as one from
+			// the current server and run the fallback a second time.
 			result := disconnectResultForPacket(b.log.V(1), p,
 				b.serverConn.player.Protocol(), b.serverConn.server, true,
 			)
 			b.requestCtx.result(result, nil)
+			b.serverConn.disconnect()
 		} else {
+			b.serverConn.disconnect()
 			b.serverConn.player.handleDisconnect(b.serverConn.server, p, true)
 		}
 	case *packet.Transfer:
@@ -159,7 +164,23 @@ func (b *backendConfigSessionHandler) handleFinishedUpdate(p *config.FinishedUpd
 
 	smc.Reader().SetState(state.Play)
 	configHandler.handleBackendFinishUpdate(b.serverConn, p).ThenAccept(func(any) {
-		err := smc.WritePacket(&config.FinishedUpdate{})
+		connected := b.serverConn == player.connectedServer()
+		var err error
+		if connected {
+			err = smc.WritePacket(&config.FinishedUpdate{})
+		} else {
+			// The backend answers the acknowledgement with JoinGame right away, which the
+			// transition handler must see: encode the acknowledgement (CONFIG state) into
+			// the write buffer, install the handler, and only then let it reach the backend.
+			if err = smc.BufferPacket(&config.FinishedUpdate{}); err == nil {
+				smc.SetActiveSessionHandler(state.Play,
+					newBackendTransitionSessionHandler(
+						b.serverConn, b.requestCtx, b.proxy(),
+					),
+				)
+				err = smc.Flush()
+			}
+		}
 		if err != nil {
 			b.log.Error(err, "error writing finished update packet")
 			b.serverConn.disconnect()
@@ -167,7 +188,7 @@ func (b *backendConfigSessionHandler) handleFinishedUpdate(p *config.FinishedUpd
 			return
 		}
 
-		if b.serverConn == player.connectedServer() {
+		if connected {
 			if !smc.SwitchSessionHandler(state.Play) {
 				err := errors.New("failed to switch session handler")
 				b.log.Error(err, "expected to switch session handler to play state")
@@ -190,12 +211,6 @@ func (b *backendConfigSessionHandler) handleFinishedUpdate(p *config.FinishedUpd
 				b.log.Error(err, "error removing all tab list entries")
 				return
 			}
-		} else {
-			smc.SetActiveSessionHandler(state.Play,
-				newBackendTransitionSessionHandler(
-					b.serverConn, b.requestCtx, b.proxy(),
-				),
-			)
 		}
 
 		if player.resourcePackHandler.FirstAppliedPack() == nil && b.resourcePackToApply != nil {
